@@ -450,6 +450,11 @@ def r13_3(model: Model, rep: Report) -> None:
         for c in p.conds:
             axioms.extend(_universal_instances(c, k, sa, R, K))
         # decompose the returned value
+        if is_ctor(v, "Zero"):
+            rep.refuted("R13.3", cons, "the path returns Zero(): summing a joint probability over some of its variables gives a marginal probability (One() when "
+                        "every child is summed), never the constant 0 -- whatever the path's test says about the children (a repeated child, an empty "
+                        "range) does not make the sum vanish", loc(f, p.line))
+            continue
         ranges_out, child_filter, leaf_ok = _decompose_sum_result(v, X, sa, k)
         if ranges_out is None:
             rep.unknown("R13.3", cons, "result shape not understood: " + short(show(v), 200), loc(f, p.line))
